@@ -8,13 +8,19 @@ ASSUME = c01.ASSUME + [
     "specification = corpus.gram.to_cfg: a fresh nonterminal per distinct use (keyed structurally, not by printed form), X* = eps | X* X, "
     "X+ = X | X+ X, X? = eps | X, groups = their sequence, macro bodies with arguments substituted, conditions ==, !=, ~~ (unanchored regex search), "
     "!~ on the content of the literal argument",
-    "values (Vec order, Option, tuples) are checked per reduce step by the reduce engine (C02), not here",
+    "values (Vec order, Option, selected symbol of a group) are checked per real reduce step on the grammar act_reps (second stage); user macros' own action code is user code",
 ]
 
 
 def run(tier):
+    from props import c02
     gs = sugar.macro_grammars(K.seed())
-    return SP.run_lang(PID, tier, SP.lang_jobs(gs, tier), ASSUME)
+    return c02.run_both(PID, tier,
+                        lambda: SP.run_lang(PID, tier, SP.lang_jobs(gs, tier), ASSUME),
+                        lambda: c02.run_e2(PID, tier, c02.ASSUME + [
+                            "C13 value half (engine E2, grammar act_reps): `X+ = X` pushes a one-element Vec, `X+ = X+ X` the same Vec with the new item appended (input order), "
+                            "`X*`/`X?`/groups are inlined by LALRPOP: the action receives an empty Vec / the X+ Vec, None / Some(item), and the selected symbol of a group; "
+                            "Vec leaves have the concrete length 2"], grammars=("act_reps",), relevant=lambda c: not any(x in c for x in c02.LOCATION)))
 
 
 def replay(path):
